@@ -307,6 +307,12 @@ fn warnings_of(r: &cooklang::error::SourceReport) -> Vec<String> {
 }
 
 pub fn check_one(ctx: &mut Ctx, cfg: &Cfg, mc: &MCase, front: bool, typed: bool) {
+    check_styled(ctx, cfg, mc, front, typed, 0)
+}
+
+/// front-matter spellings of the same entry: 0 `key: v`; 1 quoted key; 2 flow mapping; 3 between other keys, CRLF;
+/// 4 folded block scalar (`key: >`), author/source only
+pub fn check_styled(ctx: &mut Ctx, cfg: &Cfg, mc: &MCase, front: bool, typed: bool, style: u8) {
     let value_src = if front {
         if typed { mc.yaml.clone().unwrap_or_else(|| yaml_quote(&mc.text)) } else { yaml_quote(&mc.text) }
     } else {
@@ -319,9 +325,22 @@ pub fn check_one(ctx: &mut Ctx, cfg: &Cfg, mc: &MCase, front: bool, typed: bool)
         "locale" => "en",
         _ => "5",
     };
-    let doc = |val: &str| if front { format!("---\n{}: {val}\n---\nstep\n", mc.key) } else { format!(">> {}: {val}\nstep\n", mc.key) };
+    let doc = |val: &str| {
+        if !front {
+            return format!(">> {}: {val}\nstep\n", mc.key);
+        }
+        match style {
+            1 => format!("---\n\"{}\": {val}\n---\nstep\n", mc.key),
+            2 => format!("---\n{{ zz: 1, {}: {val} }}\n---\nstep\n", mc.key),
+            3 => format!("---\r\nzz: Café é\r\nnote: é\r\n{}: {val}\r\nyy: 2\r\n---\r\nstep\r\n", mc.key),
+            4 => format!("---\n{}: >\n  {}\n---\nstep\n", mc.key, val),
+            _ => format!("---\n{}: {val}\n---\nstep\n", mc.key),
+        }
+    };
+    // the folded block scalar takes the raw text (no quotes)
+    let value_src = if front && style == 4 { mc.text.clone() } else { value_src };
     let input = doc(&value_src);
-    let case = Case::new("metadata", input.as_str(), Extensions::all().bits(), cfg.name).with(json!({"key": mc.key, "value": mc.text, "front_matter": front, "typed_yaml": typed, "form": mc.form, "expected": format!("{:?}", mc.exp)}));
+    let case = Case::new("metadata", input.as_str(), Extensions::all().bits(), cfg.name).with(json!({"key": mc.key, "value": mc.text, "front_matter": front, "typed_yaml": typed, "style": style, "form": mc.form, "expected": format!("{:?}", mc.exp)}));
     ctx.begin(&case);
     let conv = cfg.parser.converter();
     let base = match crate::core::guarded(|| cfg.parser.parse(&doc(good))) {
@@ -513,6 +532,23 @@ pub fn run(ctx: &mut Ctx) {
             if mc.yaml.is_some() {
                 check_one(ctx, cfg, mc, true, true);
             }
+            // other spellings of the same front-matter entry (one per case, rotating)
+            let style = 1 + (k % 4) as u8;
+            if style == 4 {
+                let t = mc.text.as_str();
+                let plain_line = !t.is_empty() && t.trim() == t && !t.contains(['\n', '\r', '#']) && !t.starts_with(['-', '?', ':', '[', '{', '>', '|', '&', '*', '!', '%', '@', '`', '"', '\'']) && !t.contains(": ");
+                if matches!(mc.key, "author" | "source") && !yaml_only && plain_line {
+                    check_styled(ctx, cfg, mc, true, false, 4);
+                    ctx.count("style:block_scalar");
+                }
+            } else {
+                if !yaml_only {
+                    check_styled(ctx, cfg, mc, true, false, style);
+                } else {
+                    check_styled(ctx, cfg, mc, true, true, style);
+                }
+                ctx.count(["", "style:quoted_key", "style:flow_mapping", "style:between_keys_crlf"][style as usize]);
+            }
         }
     }
     ctx.notes.insert("cases_per_shard".into(), k.into());
@@ -541,11 +577,12 @@ pub fn replay(ctx: &mut Ctx, case: &Case) {
     let mut all = duration_cases(&mut rng, &cfg.tu, 0);
     all.extend(other_cases());
     let front = case.params["front_matter"].as_bool().unwrap_or(false);
+    let style = case.params["style"].as_u64().unwrap_or(0) as u8;
     let typed = case.params["typed_yaml"].as_bool().unwrap_or(false);
     let mut found = false;
     for mc in all.iter().filter(|m| m.key == key && m.text == value) {
         found = true;
-        check_one(ctx, &cfg, mc, front, typed);
+        check_styled(ctx, &cfg, mc, front, typed, style);
     }
     if !found {
         // random pair case: judge with the recorded expectation text only
